@@ -623,14 +623,14 @@ impl ImageXObject {
             StreamData::Original(ref file_range, id) => {
                 let filters = self.inner.filters.as_slice();
                 // decode all non image filters
-                let end = filters.iter().rposition(|f| match f {
-                    StreamFilter::ASCIIHexDecode => false,
-                    StreamFilter::ASCII85Decode => false,
-                    StreamFilter::LZWDecode(_) => false,
-                    StreamFilter::RunLengthDecode => false,
-                    StreamFilter::Crypt => true,
-                    _ => true
-                }).unwrap_or(filters.len());
+                let end = match filters.last() {
+                    Some(StreamFilter::DCTDecode(_)) |
+                    Some(StreamFilter::CCITTFaxDecode(_)) |
+                    Some(StreamFilter::JPXDecode) |
+                    Some(StreamFilter::FlateDecode(_)) |
+                    Some(StreamFilter::JBIG2Decode(_)) => filters.len() - 1,
+                    _ => filters.len()
+                };
                 
                 let (normal_filters, image_filters) = filters.split_at(end);
                 let data = resolve.get_data_or_decode(id, file_range.clone(), normal_filters)?;
